@@ -35,6 +35,10 @@ const (
 	eArithIncrRaw = `as := isScalar(a, t)
 	bs := isScalar(b, t)
 	is := isScalar(incr, t)
+	if as && bs {
+		// the scalar-scalar kernel below computes a op= b in place: a is an operand, work on a copy
+		a = &storage.Header{Raw: append([]byte(nil), a.Raw...)}
+	}
 	if ((as && !bs) || (bs && !as)) && is {
 		return errors.Errorf("Cannot increment on scalar increment. a: %d, b %d", a.TypedLen(t), b.TypedLen(t))
 	}
@@ -94,6 +98,10 @@ const (
 	eArithIterIncrRaw = `as :=isScalar(a, t)
 	bs := isScalar(b, t)
 	is := isScalar(incr, t)
+	if as && bs {
+		// the scalar-scalar kernel below computes a op= b in place: a is an operand, work on a copy
+		a = &storage.Header{Raw: append([]byte(nil), a.Raw...)}
+	}
 
 	if ((as && !bs) || (bs && !as)) && is {
 		return errors.Errorf("Cannot increment on a scalar increment. len(a): %d, len(b) %d", a.TypedLen(t), b.TypedLen(t))
